@@ -15,7 +15,7 @@ CONSTANTS
   Descs = {0, 1}
   StepKws <- AllKws
   Args <- ArgsFull
-  ExVariants = {"2x2", "1x3", "2x3"}
+  ExVariants = {"none", "2x2", "1x3", "2x3"}
   Gaps = {"none", "blank", "comment"}
 INVARIANT Faithful
 INVARIANT Neutral
